@@ -434,8 +434,10 @@ def temporalUsage (lrs : List TLR) (ct : Nat) : Except Err (List Int) :=
       else .ok ((addRange u lr.start lr.stop lr.size).map wrap32)
     else .ok u
 
-/-- `max(temporal_usage, default=0)` -/
-def peakUsage (u : List Int) : Int := u.foldl max 0
+/-- `max(temporal_usage, default=0)` (the default only for an empty array) -/
+def peakUsage : List Int → Int
+  | [] => 0
+  | x :: xs => xs.foldl max x
 
 /-! ## `Scheduler.use_fast_storage_for_feature_maps`, `FastStorageComponentAllocator` -/
 
